@@ -161,9 +161,10 @@ func init() {
 		ID: "C24",
 		Explanation: "Decides structural necessary conditions of 'shift-DFA scanners agree with the tables they pack': INTERVAL(bitpack): with field width W read from Pack (target*W, state*W), the accepted number of states K satisfies K*W <= 64, (K-1)*W < 2^W and K <= len(onEoi); actions < A encode as action*2+1 < 2^W; Scan decodes with mask 2^W-1, /W and /2. " +
 			"CONSTAGREE(ascii): the guard on the last symbol-map entry is <= the byte split (128) below which bytes are mapped individually. GUARD(nobacktrack): tables with checkpoints or several start states are rejected (the -1-cell decode and state 0 start are valid only then). GLOBALS: no package-level mutable state in shiftdfa. " +
-			"Not decided: equality of results on all inputs as such. CONSTAGREE(last-entry): the symbol Pack gives to all non-ASCII bytes is the Target of the last SymbolMap entry (the catch-all range), as lex.Tables documents. CODEC(lexdfa): the reference side - lex.Tables.Scan decodes the cell classes as documented, including the end-of-input fallback to the last accepted position. UNITS(scan-size) as in C09 (the reference side of the comparison). UNITS(scan-bytes): Tables.Scan decodes a rune only on the false edge of t.ScanBytes (in bytes mode every byte is one symbol).",
-		Rules: []string{"INTERVAL(bitpack)", "CONSTAGREE(ascii)", "GUARD(nobacktrack)", "GLOBALS", "CONSTAGREE(last-entry)", "CODEC(lexdfa)", "UNITS(scan-size)", "UNITS(scan-bytes)"},
+			"Not decided: equality of results on all inputs as such. CONSTAGREE(last-entry): the symbol Pack gives to all non-ASCII bytes is the Target of the last SymbolMap entry (the catch-all range), as lex.Tables documents. CODEC(lexdfa): the reference side - lex.Tables.Scan decodes the cell classes as documented, including the end-of-input fallback to the last accepted position. UNITS(scan-size) as in C09 (the reference side of the comparison). UNITS(scan-bytes): Tables.Scan decodes a rune only on the false edge of t.ScanBytes (in bytes mode every byte is one symbol). AGREE(scan-mode): the value lex.Compile stores into Tables.ScanBytes is its scanBytes parameter, the mode every pattern was parsed with (the packed scanner and Tables.Scan step through the same DFA in the same units).",
+		Rules: []string{"INTERVAL(bitpack)", "CONSTAGREE(ascii)", "GUARD(nobacktrack)", "GLOBALS", "CONSTAGREE(last-entry)", "CODEC(lexdfa)", "UNITS(scan-size)", "UNITS(scan-bytes)", "AGREE(scan-mode)"},
 		Run: func(c *Ctx) {
+			ruleSCANMODE(c)
 			ruleSHIFTDFA(c)
 			ruleLASTENTRY(c)
 			rulePKGGLOBALS(c, "shiftdfa")
@@ -179,9 +180,10 @@ func init() {
 		ID: "C09",
 		Explanation: "Decides structural necessary conditions of longest-match-with-priority tables: DTX(accept-priority): in a DFA state the accepted rule is replaced only by a rule of strictly higher precedence, equal precedence with a different action is an error. FIELDCOV(checkpoint): backtracking checkpoints are shared only between transitions with the same target state and the same accepted action, and carry that action. " +
 			"CODEC(lexdfa): the writer's three cell classes (state, checkpoint k = -1-k, accept = -1-action shifted below the checkpoints) are produced under the right tests; Tables.Scan reads Backtrack[-1-cell] only for actionStart < cell < 0, computes actionStart-cell only for cell <= actionStart (also on the end-of-input transition), and prefers a recorded checkpoint over the invalid action. " +
-			"Not decided: subset construction, epsilon closure, symbol-class compression. PAIR(checkpoint): recording a backtracking checkpoint records both the accepted action and the offset (Tables.Scan and the generated lexers). GUARD(empty-accept): addPattern reports `accepts empty text` both for accepting instructions linked from a pattern's first instruction and for an accepting first instruction itself (patterns that compile to no instruction: (), a{0}). INPLACE(write-behind-read): the in-place link filter of reCompiler.compile never writes ahead of its read cursor. GUARD(full-match): callers that use Tables.Scan to classify a whole constant (compiler.resolveClasses) compare the matched size with len(text) before trusting the action. LOOPSHAPE(fold-orbit) as in C10 (case folding visits the whole orbit, also in bytes mode). LOSTWRITE(range-copy): stores into fields of range copies in lex and compiler are observable (the token id of a backtracking checkpoint is written to Backtrack[i], not to a copy). CONSTAGREE(reserved-tokens) as in C11. UNITS(scan-size): the size Tables.Scan returns is made of 0, len(text) and cursor offsets only; the start-condition parameter (same type, also called start) never flows into it. GUARD(eoi-cycle): generate() refuses tables with a cycle of end-of-input transitions (the scanners feed EOI without consuming, so only the absence of such a cycle makes them terminate at the end of input). UNITS(scan-bytes): Tables.Scan decodes a rune only on the false edge of t.ScanBytes (in bytes mode every byte is one symbol).",
-		Rules: []string{"DTX(accept-priority)", "FIELDCOV(checkpoint)", "CODEC(lexdfa)", "PAIR(checkpoint)", "GUARD(empty-accept)", "INPLACE(write-behind-read)", "GUARD(full-match)", "LOOPSHAPE(fold-orbit)", "LOSTWRITE(range-copy)", "CONSTAGREE(reserved-tokens)", "UNITS(scan-size)", "GUARD(eoi-cycle)", "UNITS(scan-bytes)"},
+			"Not decided: subset construction, epsilon closure, symbol-class compression. PAIR(checkpoint): recording a backtracking checkpoint records both the accepted action and the offset (Tables.Scan and the generated lexers). GUARD(empty-accept): addPattern reports `accepts empty text` both for accepting instructions linked from a pattern's first instruction and for an accepting first instruction itself (patterns that compile to no instruction: (), a{0}). INPLACE(write-behind-read): the in-place link filter of reCompiler.compile never writes ahead of its read cursor. GUARD(full-match): callers that use Tables.Scan to classify a whole constant (compiler.resolveClasses) compare the matched size with len(text) before trusting the action. LOOPSHAPE(fold-orbit) as in C10 (case folding visits the whole orbit, also in bytes mode). LOSTWRITE(range-copy): stores into fields of range copies in lex and compiler are observable (the token id of a backtracking checkpoint is written to Backtrack[i], not to a copy). CONSTAGREE(reserved-tokens) as in C11. UNITS(scan-size): the size Tables.Scan returns is made of 0, len(text) and cursor offsets only; the start-condition parameter (same type, also called start) never flows into it. GUARD(eoi-cycle): generate() refuses tables with a cycle of end-of-input transitions (the scanners feed EOI without consuming, so only the absence of such a cycle makes them terminate at the end of input). UNITS(scan-bytes): Tables.Scan decodes a rune only on the false edge of t.ScanBytes (in bytes mode every byte is one symbol). AGREE(scan-mode) as in C24.",
+		Rules: []string{"DTX(accept-priority)", "FIELDCOV(checkpoint)", "CODEC(lexdfa)", "PAIR(checkpoint)", "GUARD(empty-accept)", "INPLACE(write-behind-read)", "GUARD(full-match)", "LOOPSHAPE(fold-orbit)", "LOSTWRITE(range-copy)", "CONSTAGREE(reserved-tokens)", "UNITS(scan-size)", "GUARD(eoi-cycle)", "UNITS(scan-bytes)", "AGREE(scan-mode)"},
 		Run: func(c *Ctx) {
+			ruleSCANMODE(c)
 			ruleACCEPTPRIO(c)
 			ruleCHECKPOINTKEY(c)
 			ruleLEXCODEC(c)
@@ -366,9 +368,10 @@ func init() {
 	register(&Property{
 		ID: "C16",
 		Explanation: "Decides structural necessary conditions of 'semantic action references bind to the right symbols': STACKIDX on the code emitted for $-references in every committed applyRule case (slots inside the rule, or inside the prefix for mid-rule actions). GUARD(markerfree): ActionVars.SymRefCount (the stack depth references are computed from) counts only non-marker symbols. " +
-			"LOCKSTEP(reference): ActionVars.resolve reports the position whose stack index it returns (the generator picks the type assertion by position). GUARD(remap-markerfree): the position remap stores the count of pushed symbols (never a length of rule.RHS, which includes state markers). FIELDCOV(extract-pos): the reference that replaces an extracted set/list carries expr.Pos on every path to its return. Not decided: that K is the slot of the named symbol in every expansion. FIELDCOV(action-key): every ActionVars field that commandExtractor.extract consults (SymRefCount becomes the stack offset) is part of ActionVars.String(), the key under which identical mid-rule actions share one nonterminal. FIELDCOV(renumber): both passes that renumber nonterminals (Instantiate, Rearrange) write every record that holds symbol numbers: Expr.Symbol, ArgRef.Symbol (the table $-references and their types resolve against), TokenSet.Symbol, Input.Nonterm. CONSISTENT(scope-map): the existence probes by which pushName finds a free name#N all consult the same (top-level) map. PAIR(pop-propagation) and SENTINEL(remap-absent) as in C17: names of deeper groups stay addressable, and a reference to an absent optional symbol resolves to -1, not to stack slot 0. INVARIANT(flat-top): every value stored into rhsRule.top is nil, a rule tested with isTopLevel() on that edge, or the .top of another rule, so that maxPos/incPos (which dereference .top once) allocate the positions of groups nested two or more levels deep from the top-level counter.",
-		Rules: []string{"STACKIDX", "GUARD(markerfree)", "LOCKSTEP(reference)", "GUARD(remap-markerfree)", "FIELDCOV(extract-pos)", "FIELDCOV(action-key)", "FIELDCOV(renumber)", "CONSISTENT(scope-map)", "PAIR(pop-propagation)", "SENTINEL(remap-absent)", "INVARIANT(flat-top)"},
+			"LOCKSTEP(reference): ActionVars.resolve reports the position whose stack index it returns (the generator picks the type assertion by position). GUARD(remap-markerfree): the position remap stores the count of pushed symbols (never a length of rule.RHS, which includes state markers). FIELDCOV(extract-pos): the reference that replaces an extracted set/list carries expr.Pos on every path to its return. Not decided: that K is the slot of the named symbol in every expansion. FIELDCOV(action-key): every ActionVars field that commandExtractor.extract consults (SymRefCount becomes the stack offset) is part of ActionVars.String(), the key under which identical mid-rule actions share one nonterminal. FIELDCOV(renumber): both passes that renumber nonterminals (Instantiate, Rearrange) write every record that holds symbol numbers: Expr.Symbol, ArgRef.Symbol (the table $-references and their types resolve against), TokenSet.Symbol, Input.Nonterm. CONSISTENT(scope-map): the existence probes by which pushName finds a free name#N all consult the same (top-level) map. PAIR(pop-propagation) and SENTINEL(remap-absent) as in C17: names of deeper groups stay addressable, and a reference to an absent optional symbol resolves to -1, not to stack slot 0. INVARIANT(flat-top): every value stored into rhsRule.top is nil, a rule tested with isTopLevel() on that edge, or the .top of another rule, so that maxPos/incPos (which dereference .top once) allocate the positions of groups nested two or more levels deep from the top-level counter. GUARD(rewritten-key-free): convertPart copies a name under its suffix-stripped key only on an edge where a lookup of the stripped key found nothing (an explicitly spelled Foo wins over the implied alias of Fooopt).",
+		Rules: []string{"STACKIDX", "GUARD(markerfree)", "LOCKSTEP(reference)", "GUARD(remap-markerfree)", "FIELDCOV(extract-pos)", "FIELDCOV(action-key)", "FIELDCOV(renumber)", "CONSISTENT(scope-map)", "PAIR(pop-propagation)", "SENTINEL(remap-absent)", "INVARIANT(flat-top)", "GUARD(rewritten-key-free)"},
 		Run: func(c *Ctx) {
+			ruleREWRITTENKEY(c)
 			ruleFLATTOP(c)
 			ruleREMAP(c)
 			ruleSCOPEMAP(c)
@@ -460,9 +463,10 @@ func init() {
 	register(&Property{
 		ID: "C17",
 		Explanation: "Decides structural necessary conditions of 'generation completes and the generated Go code builds' on the template trees (parsed with text/template/parse, never executed, so option branches no shipped grammar instantiates are covered): TMPLGUARD: in parser.go/parser_tables.go/stream.go templates, node-type identifiers (NodeType/NodeFlags via nodeTypeRef…, node_id) appear only under guards implying .Parser.Types. TMPL(threshold): a numeric threshold tested by two Go templates is tested identically (helper emitted iff called). " +
-			"TMPLNAMES: every {{template}} resolves and every pipeline function is registered. ERRGUARD: a return taken because error E is non-nil returns E (gen.Generate and the compiler packages). Not decided: the option x feature space as a whole; Go type-correctness of un-instantiated branches. PAIR(intern): the idx, ok := m[k]; if !ok { idx = len(list); append } idiom records idx under k (no duplicate node types, which would be redeclared constants in listener.go). AGREE(session): (*Grammar).NeedsSession, evaluated for every assignment of the options that guard members of the template's session struct, is true exactly when lookaheads exist and a member exists (a use site never names a member that parse() declared as a local). AGREE(file-deps): on every path of gen.(*language).templates (all option combinations) each generated package that a selected group of Go files imports ({{pkg \"selector\"}}, token) is written by a selected group. AGREE(call-arity): every call of a TokenStream method whose first parameter exists only under an option guard (next: ctx under Cancellable and CancellableFetch) adds the argument under the same guard (template-tree sibling check: the text `.next(` is followed by the matching {{if}}). TMPL(def-use): for every helper function defined in go_parser.go.tmpl, the guard formula of each call site (and/or/not over the atomic template conditions, single-assignment template variables substituted, customisation switches taken as enabled) implies the guard formula of a definition, checked for every truth assignment. PAIR(seen-set): every once-only guard `if !seen[k]` records k in its branch. GUARD(inline-unique): canInlineRules refuses to inline when two lexer rules share a token. GUARD(synthetic-name-free): the synthetic category TokenSet is added only when that name is free among the declared categories and among the node types (both become declarations of the generated package). ONCE(go-decl): every emission of a Go short variable declaration inside goParserAction's reference loop is guarded by a failed seen-set lookup whose key is recorded in the same block (an action that mentions a symbol twice still builds). DEDUP(marker-states): minimize de-duplicates the remapped state list of a marker against a seen-set (the renumbering is not monotone; a repeated state is a duplicate key in the generated marker map). TMPL(field-use): every use of an option-guarded field of Lexer, TokenStream or Parser in go_lexer/go_stream/go_parser templates is emitted only for option combinations for which the field is declared (guard formulas, all truth assignments). TMPL(node-id): the declaration of node type constants in listener.go and every reference to them from generated Go code print the identifier through node_id (nodePrefix + name), so a non-empty nodePrefix still builds. GUARD(comment-single-line): the constant text of a pattern is tested for line breaks before it becomes the token's line comment (otherwise the generated token enum gains a stray constant and the following token values shift). SENTINEL(remap-absent): lookups in ActionVars.Remap whose key is not known to be present use the comma-ok form (an absent optional symbol is -1/nil, never stack slot 0 with a foreign type). PAIR(pop-propagation): popRule hands both the argRefs and the names of a finished nested group to the enclosing rule (an accepted grammar never fails in generation with `invalid reference`). TMPL(ctx-arity): for every `name({{if G}}ctx, {{end}}...)` in go_parser/go_stream/go_lexer templates and every option assignment under which the call is emitted, G equals the guard of the ctx parameter of the function called (arity) and implies the ctx parameter of the enclosing function (scope). GUARD(alias-elision): the backward slice of the conditions under which ExtractGoImports skips the write of an explicit import alias contains the path separator (a \"/\" constant or path.Base): a decision that the alias is the last path segment has to locate the segment boundary (necessary condition; a test on path and alias alone also elides \"path/filepath as path\").",
-		Rules: []string{"TMPLGUARD", "TMPL(threshold)", "TMPLNAMES", "ERRGUARD", "PAIR(intern)", "AGREE(session)", "AGREE(file-deps)", "AGREE(call-arity)", "TMPL(def-use)", "PAIR(seen-set)", "GUARD(inline-unique)", "GUARD(synthetic-name-free)", "ONCE(go-decl)", "DEDUP(marker-states)", "TMPL(field-use)", "TMPL(node-id)", "GUARD(comment-single-line)", "SENTINEL(remap-absent)", "PAIR(pop-propagation)", "TMPL(ctx-arity)", "GUARD(alias-elision)"},
+			"TMPLNAMES: every {{template}} resolves and every pipeline function is registered. ERRGUARD: a return taken because error E is non-nil returns E (gen.Generate and the compiler packages). Not decided: the option x feature space as a whole; Go type-correctness of un-instantiated branches. PAIR(intern): the idx, ok := m[k]; if !ok { idx = len(list); append } idiom records idx under k (no duplicate node types, which would be redeclared constants in listener.go). AGREE(session): (*Grammar).NeedsSession, evaluated for every assignment of the options that guard members of the template's session struct, is true exactly when lookaheads exist and a member exists (a use site never names a member that parse() declared as a local). AGREE(file-deps): on every path of gen.(*language).templates (all option combinations) each generated package that a selected group of Go files imports ({{pkg \"selector\"}}, token) is written by a selected group. AGREE(call-arity): every call of a TokenStream method whose first parameter exists only under an option guard (next: ctx under Cancellable and CancellableFetch) adds the argument under the same guard (template-tree sibling check: the text `.next(` is followed by the matching {{if}}). TMPL(def-use): for every helper function defined in go_parser.go.tmpl, the guard formula of each call site (and/or/not over the atomic template conditions, single-assignment template variables substituted, customisation switches taken as enabled) implies the guard formula of a definition, checked for every truth assignment. PAIR(seen-set): every once-only guard `if !seen[k]` records k in its branch. GUARD(inline-unique): canInlineRules refuses to inline when two lexer rules share a token. GUARD(synthetic-name-free): the synthetic category TokenSet is added only when that name is free among the declared categories and among the node types (both become declarations of the generated package). ONCE(go-decl): every emission of a Go short variable declaration inside goParserAction's reference loop is guarded by a failed seen-set lookup whose key is recorded in the same block (an action that mentions a symbol twice still builds). DEDUP(marker-states): minimize de-duplicates the remapped state list of a marker against a seen-set (the renumbering is not monotone; a repeated state is a duplicate key in the generated marker map). TMPL(field-use): every use of an option-guarded field of Lexer, TokenStream or Parser in go_lexer/go_stream/go_parser templates is emitted only for option combinations for which the field is declared (guard formulas, all truth assignments). TMPL(node-id): the declaration of node type constants in listener.go and every reference to them from generated Go code print the identifier through node_id (nodePrefix + name), so a non-empty nodePrefix still builds. GUARD(comment-single-line): the constant text of a pattern is tested for line breaks before it becomes the token's line comment (otherwise the generated token enum gains a stray constant and the following token values shift). SENTINEL(remap-absent): lookups in ActionVars.Remap whose key is not known to be present use the comma-ok form (an absent optional symbol is -1/nil, never stack slot 0 with a foreign type). PAIR(pop-propagation): popRule hands both the argRefs and the names of a finished nested group to the enclosing rule (an accepted grammar never fails in generation with `invalid reference`). TMPL(ctx-arity): for every `name({{if G}}ctx, {{end}}...)` in go_parser/go_stream/go_lexer templates and every option assignment under which the call is emitted, G equals the guard of the ctx parameter of the function called (arity) and implies the ctx parameter of the enclosing function (scope). GUARD(alias-elision): the backward slice of the conditions under which ExtractGoImports skips the write of an explicit import alias contains the path separator (a \"/\" constant or path.Base): a decision that the alias is the last path segment has to locate the segment boundary (necessary condition; a test on path and alias alone also elides \"path/filepath as path\"). REGISTER as in C28: every symbol registration tests the identifier it registers against the taken identifiers on every path (an explicit token ID that repeats an earlier token's ID would be a redeclared constant in token.go).",
+		Rules: []string{"TMPLGUARD", "TMPL(threshold)", "TMPLNAMES", "ERRGUARD", "PAIR(intern)", "AGREE(session)", "AGREE(file-deps)", "AGREE(call-arity)", "TMPL(def-use)", "PAIR(seen-set)", "GUARD(inline-unique)", "GUARD(synthetic-name-free)", "ONCE(go-decl)", "DEDUP(marker-states)", "TMPL(field-use)", "TMPL(node-id)", "GUARD(comment-single-line)", "SENTINEL(remap-absent)", "PAIR(pop-propagation)", "TMPL(ctx-arity)", "GUARD(alias-elision)", "REGISTER"},
 		Run: func(c *Ctx) {
+			ruleREGISTER(c)
 			ruleTMPLCTXARITY(c)
 			ruleALIASELISION(c)
 			ruleINTERN(c, "syntax", "compiler", "grammar", "gen", "lalr", "lex")
@@ -492,9 +496,10 @@ func init() {
 	register(&Property{
 		ID: "C21",
 		Explanation: "Decides, for the shipped typed ASTs (js, tm; parsers/test/ast is a stale directory that test.tm no longer generates), that no accessor's type assertion can fail and the node factory is total: EXHAUST: the factory switch has a case for every NodeType constant. IMPL: for every accessor, every node type admitted by the last selector of its navigation chain (categories expanded through the generated category lists) and NilNode implement the asserted interface (go/types.Implements), and struct wrappers T{child} are used only with single-type selectors equal to T. " +
-			"TMPL(step-scope): the template emits each chain step's selector name from the step itself. Not decided: other grammars (type inference in syntax/types.go is algorithmic), 'every child is reachable through an accessor'. PAIR(save-restore): typeCollector.nontermPhrase reads c.referrer after the descent only behind the store that restores it (the low-link of a cycle reaches the entry nonterminal, whose fields become lists). FIELDCOV(minimize): every component of the rule-class key, node type and flags included, is filled on every path (states reporting different node types are not merged). SIBLING(tarjan-update): the low-link update after the recursive descent of the type collector's embedded Tarjan propagates lowLink[child], as util/graph's does. INTERVAL(bitset-size): the size expression of the generated selector.OneOf bit set, evaluated for every max in [0, 8*bits], exceeds max/bits. GUARD(sibling-boundary): addNode treats a stacked node as a later sibling iff its start offset >= the new node's end offset. COPY(struct-slices): a value copy of a field record (ret := *fields[0]) gets its own types slice before it is appended to and sorted in place, so inferred field types of other nodes that share the original slice do not change. GUARD(sibling-boundary) also covers the child test of addNode (stack[i].offset >= offset). AGREE(min-update): in syntax, every `if A < B { B = V }` over memory locations stores the value it compared (the low-link update of the type collector's SCC compares and stores lowLink[child]). RESIDUE(with-quotient): every closure returned by a generated selector.OneOf that tests bit t % bits also uses the word index t / bits or a bound on t (no aliasing of node types that are congruent modulo the word size). GUARD(reuse-equal) and DTX(expr-equal) as in C13 (two lists that differ only in the reported node type are never merged: the accessors are derived from the written rules).",
-		Rules: []string{"EXHAUST", "IMPL", "TMPL(step-scope)", "FIELDCOV(minimize)", "PAIR(save-restore)", "SIBLING(tarjan-update)", "INTERVAL(bitset-size)", "GUARD(sibling-boundary)", "COPY(struct-slices)", "AGREE(min-update)", "RESIDUE(with-quotient)", "GUARD(reuse-equal)", "DTX(expr-equal)"},
+			"TMPL(step-scope): the template emits each chain step's selector name from the step itself. Not decided: other grammars (type inference in syntax/types.go is algorithmic), 'every child is reachable through an accessor'. PAIR(save-restore): typeCollector.nontermPhrase reads c.referrer after the descent only behind the store that restores it (the low-link of a cycle reaches the entry nonterminal, whose fields become lists). FIELDCOV(minimize): every component of the rule-class key, node type and flags included, is filled on every path (states reporting different node types are not merged). SIBLING(tarjan-update): the low-link update after the recursive descent of the type collector's embedded Tarjan propagates lowLink[child], as util/graph's does. INTERVAL(bitset-size): the size expression of the generated selector.OneOf bit set, evaluated for every max in [0, 8*bits], exceeds max/bits. GUARD(sibling-boundary): addNode treats a stacked node as a later sibling iff its start offset >= the new node's end offset. COPY(struct-slices): a value copy of a field record (ret := *fields[0]) gets its own types slice before it is appended to and sorted in place, so inferred field types of other nodes that share the original slice do not change. GUARD(sibling-boundary) also covers the child test of addNode (stack[i].offset >= offset). AGREE(min-update): in syntax, every `if A < B { B = V }` over memory locations stores the value it compared (the low-link update of the type collector's SCC compares and stores lowLink[child]). RESIDUE(with-quotient): every closure returned by a generated selector.OneOf that tests bit t % bits also uses the word index t / bits or a bound on t (no aliasing of node types that are congruent modulo the word size). GUARD(reuse-equal) and DTX(expr-equal) as in C13 (two lists that differ only in the reported node type are never merged: the accessors are derived from the written rules). GUARD(root-adopts-all) as in C20: the file node adopts every reported node, an empty one at the very end of the input included (a required accessor of the file node returns a present node).",
+		Rules: []string{"EXHAUST", "IMPL", "TMPL(step-scope)", "FIELDCOV(minimize)", "PAIR(save-restore)", "SIBLING(tarjan-update)", "INTERVAL(bitset-size)", "GUARD(sibling-boundary)", "COPY(struct-slices)", "AGREE(min-update)", "RESIDUE(with-quotient)", "GUARD(reuse-equal)", "DTX(expr-equal)", "GUARD(root-adopts-all)"},
 		Run: func(c *Ctx) {
+			ruleROOTADOPT(c)
 			ruleEXPREQUAL(c)
 			ruleREUSEEQUAL(c)
 			ruleSAVERESTORE(c, "syntax", "compiler", "gen", "grammar")
